@@ -1566,6 +1566,8 @@ mismatch between values and axes""".format(inferred, self.values.shape)
         0 / year (4): 1900 to 1903
         array([1, 2, 3, 4])
         """
+        if name is not None and name in self.dims and name != self.axes[axis].name:
+            raise ValueError("dimension already present: {}".format(name))
         if not inplace: self = self.copy()
         self.axes[axis].set(values=values, inplace=True, name=name, **kwargs)
         if not inplace: return self
